@@ -189,8 +189,14 @@ def main():
         for i in range(a.flips):
             cases.append({"base": b, "kind": "flip", "seed": a.seed * 100000 + i, "nflips": 1 + i % 3, "stored": i % 2 == 0})
         nrec = len(base_members(b))
-        entries = sorted({0, 1, nrec // 2, nrec - 1}) if a.flips <= 150 else range(nrec)
-        cases.append({"base": b, "kind": "zipstruct", "region": "eocd", "entry": 0})
+        if bases.index(b) >= 2:
+            entries = []  # structural bit flips on the first two containers only (each record costs ~370 opens)
+        elif a.flips <= 150:
+            entries = sorted({0, 1, nrec // 2, nrec - 1})
+        else:
+            entries = sorted(set(range(0, nrec, max(1, nrec // 10))) | {1, nrec - 1})
+        if entries:
+            cases.append({"base": b, "kind": "zipstruct", "region": "eocd", "entry": 0})
         for e_ in entries:
             cases.append({"base": b, "kind": "zipstruct", "region": "cd", "entry": e_, "stored": e_ % 2 == 0})
             cases.append({"base": b, "kind": "zipstruct", "region": "local", "entry": e_, "stored": e_ % 2 == 1})
